@@ -792,5 +792,53 @@ def generated_obligations(ck):
 
 PARTIAL = ['latex_depth_roundtrip is proved for the identity codec; with latexcodec the depth claim is oracled on values the codec leaves unchanged and compared model-vs-code elsewhere',
            'HTML / Markdown / LaTeX theorems assume ordinary URLs and tag names (no angle bracket; no ")" in Markdown link URLs; balanced braces in LaTeX): the code inserts both unescaped',
-           'whole documents (write_to_stream) are tied by the correspondence only; no theorem is stated about them',
+           'whole documents: the HTML <head> block (DOCTYPE, void meta elements) is fixed text outside the well-formedness theorem; labels/keys are inserted unescaped (hypotheses plain_label / balanced)',
+           'latex_depth_roundtrip_codec: its four codec hypotheses are sampled against latexcodec (codec_hypotheses_sweep), not proved of it, and hold only on an alphabet without space , - \' ` ~',
            'latexcodec itself is a measured table (encoder) / applied by the harness (decoder)']
+
+# ----------------------------------------------------------------------------------------
+# the codec hypotheses of latex_depth_roundtrip_codec, sampled against latexcodec on every run
+CODEC_ALPHA = ''.join(chr(c) for c in range(33, 127) if chr(c) not in "{}\\~'`-,")
+
+def extra_checks(ck, tier, rng):
+    import codecs, latexcodec  # noqa
+    be = backend_tables(1)[2]
+    enc = be.format_str
+    def dec(s):
+        return codecs.decode(s, 'ulatex')
+    fails = []; n = 0
+    def bad(what, *vals):
+        if len(fails) < 5:
+            fails.append((what, repr(vals)[:300], False))
+    if enc('') != '':
+        bad('enc [] = []')
+    # exhaustive over pairs of alphabet characters, then random longer strings
+    strings = [''] + list(CODEC_ALPHA) + [a + b for a in CODEC_ALPHA for b in CODEC_ALPHA]
+    for _ in range(3000 if tier == 'quick' else 60000):
+        strings.append(''.join(rng.choice(CODEC_ALPHA) for _ in range(rng.randint(3, 12))))
+    for s in strings:
+        n += 1
+        try:
+            e = enc(s)
+            if dec(e) != s:
+                bad('dec (enc s) = s', s, e, dec(e))
+            if '{' in e or '}' in e:
+                bad('enc keeps the brace skeleton', s, e)
+            k = rng.randrange(len(s) + 1)
+            if enc(s[:k]) + enc(s[k:]) != e:
+                bad('enc (a ++ b) = enc a ++ enc b', s[:k], s[k:])
+        except Exception as ex:
+            bad('codec raised', s, repr(ex))
+    # the decoder leaves braces in place: dec (enc a ++ b :: r) = dec (enc a) ++ b :: dec r, r an encoded token stream
+    for _ in range(2000 if tier == 'quick' else 40000):
+        n += 1
+        a = ''.join(rng.choice(CODEC_ALPHA) for _ in range(rng.randint(0, 6)))
+        b = rng.choice('{}')
+        r = ''.join(rng.choice(['{', '}', enc(''.join(rng.choice(CODEC_ALPHA) for _ in range(rng.randint(1, 4))))]) for _ in range(rng.randint(0, 6)))
+        try:
+            if dec(enc(a) + b + r) != dec(enc(a)) + b + dec(r):
+                bad('dec (enc a ++ b :: r) = dec (enc a) ++ b :: dec r', a, b, r)
+        except Exception as ex:
+            bad('decoder raised', a, b, r, repr(ex))
+    yield {'name': 'codec_hypotheses_sweep', 'evaluations': n, 'failures': fails,
+           'info': 'hypotheses of latex_depth_roundtrip_codec against latexcodec on the alphabet %r (printable ASCII without braces, backslash, ~ \' ` - ,): all strings of length <= 2, random longer ones, random brace/token streams' % CODEC_ALPHA}
